@@ -35,6 +35,7 @@ func pipe2Rules(c *Ctx) {
 	c.absJoinRule(reach)
 	c.sliceBounds(reach)
 	c.selfInline(reach)
+	c.panicBoundary()
 }
 
 // absJoinRule (C04/C01, PIPE-ABSJOIN): the normalisers join a $ref's document part onto the directory of a base
@@ -1730,4 +1731,118 @@ func (c *Ctx) collectionMutated(fi *core.FuncInfo, x ast.Expr, from, to token.Po
 		return true
 	})
 	return mutated
+}
+
+// panicBoundary (C09, PANIC-BOUNDARY): the resolvers and expanders of go-openapi/spec panic when a $ref is a JSON
+// pointer to an optional part that the target does not define (jsonpointer returns a typed nil pointer, spec calls a
+// value-receiver MarshalJSON on it). The $refs come from the document, so every call of such a function made below
+// Flatten, New or Schema must run under a recover that turns the panic into the returned error: either inside a
+// function literal handed to a guard (a module function whose deferred function calls recover and assigns its named
+// error result), or in a function that has such a defer itself.
+func (c *Ctx) panicBoundary() {
+	risky := map[string]bool{
+		"github.com/go-openapi/spec.ResolveRefWithBase": true, "github.com/go-openapi/spec.ResolveRef": true,
+		"github.com/go-openapi/spec.ExpandSchema": true, "github.com/go-openapi/spec.ExpandSpec": true,
+		"github.com/go-openapi/spec.ExpandSchemaWithBasePath": true, "github.com/go-openapi/spec.ResolveParameterWithBase": true,
+		"github.com/go-openapi/spec.ResolveResponseWithBase": true, "github.com/go-openapi/spec.ResolvePathItemWithBase": true,
+	}
+	// does the body recover and hand the panic out as its named error result?
+	recovers := func(fi *core.FuncInfo, body *ast.BlockStmt, ft *ast.FuncType) bool {
+		info := c.info(fi)
+		var named types.Object
+		if ft.Results != nil {
+			for _, f := range ft.Results.List {
+				for _, nm := range f.Names {
+					if o := info.Defs[nm]; o != nil && core.IsErrorType(o.Type()) {
+						named = o
+					}
+				}
+			}
+		}
+		if named == nil {
+			return false
+		}
+		ok := false
+		for _, st := range body.List {
+			ds, isDefer := st.(*ast.DeferStmt)
+			if !isDefer {
+				continue
+			}
+			lit, isLit := core.Unparen(ds.Call.Fun).(*ast.FuncLit)
+			if !isLit {
+				continue
+			}
+			callsRecover, assigns := false, false
+			ast.Inspect(lit.Body, func(n ast.Node) bool {
+				switch x := n.(type) {
+				case *ast.CallExpr:
+					if isBuiltin(info, x, "recover") {
+						callsRecover = true
+					}
+				case *ast.AssignStmt:
+					for _, l := range x.Lhs {
+						if core.ObjOf(info, l) == named {
+							assigns = true
+						}
+					}
+				}
+				return true
+			})
+			if callsRecover && assigns {
+				ok = true
+			}
+		}
+		return ok
+	}
+	guards := map[*types.Func]bool{}
+	for _, fi := range c.P.SortedFuncs() {
+		if recovers(fi, fi.Decl.Body, fi.Decl.Type) {
+			guards[fi.Obj] = true
+		}
+	}
+	roots := []*core.FuncInfo{}
+	for _, nm := range []string{"Flatten", "New", "Schema"} {
+		if r := c.root(nm); r != nil {
+			roots = append(roots, r)
+		}
+	}
+	n := 0
+	for _, fi := range core.SortedSet(c.P.Reachable(roots...)) {
+		pm := c.parents(fi)
+		ord := map[string]int{}
+		for _, call := range calls(fi.Decl.Body) {
+			cal := c.P.CalleeAny(fi, call)
+			if cal == nil || !risky[cal.FullName()] {
+				continue
+			}
+			n++
+			guarded := guards[fi.Obj]
+			for p := pm[call]; p != nil && !guarded; p = pm[p] {
+				lit, ok := p.(*ast.FuncLit)
+				if !ok {
+					continue
+				}
+				// the literal is an argument of a guard call, or recovers itself
+				if recovers(fi, lit.Body, lit.Type) {
+					guarded = true
+				}
+				if outer, ok := pm[lit].(*ast.CallExpr); ok {
+					if g := c.P.StaticCallee(fi, outer); g != nil && guards[g] {
+						guarded = true
+					}
+				}
+			}
+			k := fi.QName() + "/" + cal.Name()
+			ord[k]++
+			if ord[k] > 1 {
+				k = fmt.Sprintf("%s#%d", k, ord[k])
+			}
+			c.S.Decide(guarded, "C09", "PANIC-BOUNDARY", k, c.P.Pos(call.Pos()),
+				"the call into the spec resolver runs under a recover that returns the panic as an error",
+				cal.Name()+" of go-openapi/spec is called on a $ref of the document without a recover: a JSON pointer to an optional part the target does not define (…/responses/default, …/items, #/info/license) makes it panic (value method called using nil pointer), and Flatten / Schema crash instead of returning an error")
+		}
+	}
+	if n < 3 {
+		c.S.Note("PANIC-BOUNDARY: fewer than three calls into the spec resolvers found (five on the pinned tree)")
+	}
 }
